@@ -1,71 +1,84 @@
 /-
   C01 — the main simulation theorem `sim` (all constructors of the fragment).
 -/
-import JaqVerif.Lemmas.C01Sim
+import JaqVerif.Lemmas.C01Ctor
 
 namespace Jaq.Core
 open Jaq
 
-theorem cartM_cfgF (ol : Out) (r : Unit → Out) (f : Val → Val → Except Err Val) :
-    cartM cfgF ol r f = cartSem ol r f := cartM_fixed ol r f
-
-theorem bindPat_var (ev0 : Term → Val → Out) (x : String) (w : Val) (acc : Env) :
-    bindPat ev0 (.var x) w acc = .done [.var x w :: acc] := by rw [bindPat]
-theorem bindPatM_var (rn0 : TermId → Val → Out) (w : Val) (acc : MEnv) :
-    bindPatM rn0 .var w acc = .done [.val w :: acc] := by rw [bindPatM]
+variable {pe : Bool}
 
 /-- the I-form of the induction hypothesis -/
-def SimI (tabf : List CTerm) (n : Nat) : Prop :=
+def SimI (pe : Bool) (tabf : List CTerm) (n : Nat) : Prop :=
   ∀ (L : Nat) (σ : Env) (loc : Locals) (e : MEnv) (t : Term) (v : Val) (id : TermId),
-    inFragment t = true → Rel tabf σ loc e → CompiledI tabf loc t id →
+    inFragment pe t = true → Rel pe tabf σ loc e → CompiledI pe tabf loc t id →
     ∃ m, ∀ m' ≥ m, Pre (eval n L σ t v) (run cfgF tabf m' L e id v)
 
-def SimT (tabf : List CTerm) (n : Nat) : Prop :=
+def SimT (pe : Bool) (tabf : List CTerm) (n : Nat) : Prop :=
   ∀ (L : Nat) (σ : Env) (loc : Locals) (e : MEnv) (t : Term) (v : Val) (c : CTerm),
-    inFragment t = true → Rel tabf σ loc e → CompiledT tabf loc t c →
+    inFragment pe t = true → Rel pe tabf σ loc e → CompiledT pe tabf loc t c →
     ∃ m, ∀ m' ≥ m, Pre (eval n L σ t v) (step cfgF (run cfgF tabf m') L e c v)
 
-theorem simI_of_simT {tabf : List CTerm} {n : Nat} (h : SimT tabf n) : SimI tabf n := by
+theorem simI_of_simT {tabf : List CTerm} {n : Nat} (h : SimT pe tabf n) : SimI pe tabf n := by
   intro L σ loc e t v id hfr hrel ⟨c, hget, hc⟩
   obtain ⟨m, hm⟩ := h L σ loc e t v c hfr hrel hc
   exact fuel_step _ m (fun k hk => by rw [run_succ hget]; exact hm k hk)
 
-/-- the shared part of `reduce` / `foreach` -/
-theorem fold_core {tabf : List CTerm} {n : Nat} (ihI : SimI tabf n) (L : Nat) (σ : Env) (loc : Locals) (e : MEnv) (v : Val)
-    (hrel : Rel tabf σ loc e) (x : String) (xs init update : Term) (ixs iinit iupd : TermId)
-    (hfx : inFragment xs = true) (hfi : inFragment init = true) (hfu : inFragment update = true)
-    (hIx : CompiledI tabf loc xs ixs) (hIi : CompiledI tabf loc init iinit)
-    (hIu : CompiledI tabf (loc.pushBind (.var x)) update iupd)
+theorem SimI.tsim {tabf : List CTerm} {n : Nat} (ihI : SimI pe tabf n) {L : Nat} {σ : Env} {loc : Locals} {e : MEnv}
+    (hrel : Rel pe tabf σ loc e) : TSim pe tabf n L σ loc e :=
+  fun t id v hfr hI => ihI L σ loc e t v id hfr hrel hI
+
+/-- the shared part of `reduce` / `foreach` (any pattern) -/
+theorem fold_core {tabf : List CTerm} {n : Nat} (ihI : SimI pe tabf n) (L : Nat) (σ : Env) (loc : Locals) (e : MEnv) (v : Val)
+    (hrel : Rel pe tabf σ loc e) (pat : Pattern) (xs init update : Term) (ixs iinit iupd : TermId)
+    (hfx : inFragment pe xs = true) (hfp : inFragmentPat pe pat = true) (hfi : inFragment pe init = true)
+    (hfu : inFragment pe update = true)
+    (hIx : CompiledI pe tabf loc xs ixs) (hIi : CompiledI pe tabf loc init iinit)
+    (hIu : CompiledI pe tabf (loc.pushVars pat.vars) update iupd)
+    (st0 st3 : St) (k0 : Nat) (hl : Ext (pattern (cxMain pe) loc pat st0).2 st3) (hk : k0 ≤ st0.terms.length)
+    (hag : AgreeFrom k0 st3.terms tabf)
     (projS : Env → Val → Out) (projM : Nat → MEnv → Val → Out) (isR : Bool)
-    (hproj : ∀ w acc, ∃ m, ∀ m' ≥ m, Pre (projS (.var x w :: σ) acc) (projM m' (.val w :: e) acc)) :
+    (hproj : ∀ ρx ex, Rel pe tabf ρx (loc.pushVars pat.vars) ex → ∀ acc, ∃ m, ∀ m' ≥ m, Pre (projS ρx acc) (projM m' ex acc)) :
     ∃ m, ∀ m' ≥ m, Pre
       (let ox := eval n L σ xs v
-       let bs := OutG.bind ox.vals ox.stop fun w => bindPat (eval n L σ) (.var x) w σ
+       let bs := OutG.bind ox.vals ox.stop fun w => bindPat (eval n L σ) pat w σ
        let oi := eval n L σ init v
        OutG.bind oi.vals oi.stop fun i =>
          foldSem (fun ρx acc => eval n L ρx update acc) projS isR bs.vals bs.stop i)
       (let ox := run cfgF tabf m' L e ixs v
-       let bs := OutG.bind ox.vals ox.stop fun w => bindPatM (run cfgF tabf m' L e) .var w e
+       let bs := OutG.bind ox.vals ox.stop fun w => bindPatM (run cfgF tabf m' L e) (pattern (cxMain pe) loc pat st0).1 w e
        let oi := run cfgF tabf m' L e iinit v
        OutG.bind oi.vals oi.stop fun i =>
          foldM (fun ex acc => run cfgF tabf m' L ex iupd acc) (projM m') isR bs.vals bs.stop i) := by
+  have hT := ihI.tsim (L := L) hrel
   obtain ⟨m1, h1⟩ := ihI L σ loc e xs v ixs hfx hrel hIx
   obtain ⟨m2, h2⟩ := ihI L σ loc e init v iinit hfi hrel hIi
+  -- the stream of matches
+  obtain ⟨mp, hp⟩ := uniform_fuel (P := fun m' w => Pre (mapO (toM e pat.vars.length) (bindPat (eval n L σ) pat w σ))
+      (bindPatM (run cfgF tabf m' L e) (pattern (cxMain pe) loc pat st0).1 w e))
+    (eval n L σ xs v).vals (fun w _ => pat_sim hT.key pat hfp st0 st3 k0 hl hk hag w)
+  have hbs : ∀ m' ≥ max m1 mp, Pre
+      (mapO (toM e pat.vars.length) (OutG.bind (eval n L σ xs v).vals (eval n L σ xs v).stop fun w => bindPat (eval n L σ) pat w σ))
+      (OutG.bind (run cfgF tabf m' L e ixs v).vals (run cfgF tabf m' L e ixs v).stop
+        fun w => bindPatM (run cfgF tabf m' L e) (pattern (cxMain pe) loc pat st0).1 w e) := by
+    intro m' hm'
+    rw [mapO_bind]
+    exact pre_bind' (h1 m' (by omega)) (hp m' (by omega))
+  have hrelx : ∀ ρx ∈ (OutG.bind (eval n L σ xs v).vals (eval n L σ xs v).stop fun w => bindPat (eval n L σ) pat w σ).vals,
+      Rel pe tabf ρx (loc.pushVars pat.vars) (toM e pat.vars.length ρx) := by
+    intro ρx hρ
+    obtain ⟨w, _, hw⟩ := mem_bind hρ
+    exact pat_rel _ hrel pat w ρx hw
   have hfold := fold_sim (fun ρx acc => eval n L ρx update acc) projS
-    (fun m' ex acc => run cfgF tabf m' L ex iupd acc) projM isR (fun w => .var x w :: σ) (fun w => .val w :: e)
-    (eval n L σ xs v).vals (eval n L σ xs v).stop
-    (fun w _ acc => ihI L (.var x w :: σ) (loc.pushBind (.var x)) (.val w :: e) update acc iupd hfu (Rel.v hrel) hIu)
-    (fun w _ acc => hproj w acc)
-  obtain ⟨m3, h3⟩ := uniform_fuel (P := fun m' i => ∀ (ws' : List Val) (s' : Stop),
-      Pre (⟨(eval n L σ xs v).vals, (eval n L σ xs v).stop⟩ : Out) ⟨ws', s'⟩ →
-      Pre (foldSem (fun ρx acc => eval n L ρx update acc) projS isR ((eval n L σ xs v).vals.map fun w => .var x w :: σ)
-            (eval n L σ xs v).stop i)
-          (foldM (fun ex acc => run cfgF tabf m' L ex iupd acc) (projM m') isR (ws'.map fun w => .val w :: e) s' i))
-    (eval n L σ init v).vals (fun i _ => hfold i)
-  refine ⟨max m1 (max m2 m3), fun m' hm' => ?_⟩
-  simp only [bindPat_var, bindPatM_var, bind_map]
+    (fun m' ex acc => run cfgF tabf m' L ex iupd acc) projM isR (toM e pat.vars.length)
+    (OutG.bind (eval n L σ xs v).vals (eval n L σ xs v).stop fun w => bindPat (eval n L σ) pat w σ).vals
+    (OutG.bind (eval n L σ xs v).vals (eval n L σ xs v).stop fun w => bindPat (eval n L σ) pat w σ).stop
+    (fun ρx hρ acc => ihI L ρx _ _ update acc iupd hfu (hrelx ρx hρ) hIu)
+    (fun ρx hρ acc => hproj ρx _ (hrelx ρx hρ) acc)
+  obtain ⟨m3, h3⟩ := uniform_fuel (eval n L σ init v).vals (fun i _ => hfold i)
+  refine ⟨max (max m1 mp) (max m2 m3), fun m' hm' => ?_⟩
   refine pre_bind' (h2 m' (by omega)) (fun i hi => ?_)
-  exact h3 m' (by omega) i hi _ _ (Pre.eta _ _ (h1 m' (by omega)))
+  exact h3 m' (by omega) i hi _ _ (Pre.eta _ _ (hbs m' (by omega)))
 
 /-- resolution of a call to a definition: whatever the call type, the compiled call names the
 definition's body, binds the arguments in order and skips to the definition's environment -/
@@ -82,35 +95,86 @@ theorem all2_length {α β : Type} {R : α → β → Prop} {as : List α} {bs :
   | nil => rfl
   | cons _ _ ih => simp [ih]
 
-/-- a name that the locals do not know: the (empty) prelude does not know it either; it is the
-native `error_empty`, or undefined -/
+/-- a name (other than `!empty`) that the locals do not know: the prelude does not know it either;
+it is the native `error_empty`, or undefined -/
 theorem callC_none {loc : Locals} {name : String} {ids : List TermId} {tr : Tr} (st : St)
-    (hcall : loc.call name ids tr = none) :
-    callC cxMain loc name ids tr st =
+    (hcall : loc.call name ids tr = none) (hne : name ≠ emptyName) :
+    callC (cxMain pe) loc name ids tr st =
       if name = "error_empty" ∧ ids.length = 0 then (.native 0 [], [], st) else (.id, [], st.fail name) := by
   unfold callC
   rw [hcall]
+  have hne' : ¬ (emptyName = name) := fun h => hne h.symm
   by_cases h : name = "error_empty" ∧ ids.length = 0
   · obtain ⟨rfl, h0⟩ := h
-    simp [cxMain, callModId, findNative, c01Natives, Locals.binds, h0]
+    cases pe <;> simp [cxMain, callModId, findNative, c01Natives, Locals.binds, h0, emptyMDef, emptyName]
   · rw [if_neg h]
     have : ¬ ("error_empty" = name ∧ 0 = ids.length) := fun ⟨a, b⟩ => h ⟨a.symm, b.symm⟩
-    simp [cxMain, callModId, findNative, c01Natives, this]
+    cases pe <;> simp [cxMain, callModId, findNative, c01Natives, this, emptyMDef, hne']
 
-theorem sim (tabf : List CTerm) : ∀ n, SimT tabf n := by
+theorem findCall_defn_name {σ : Env} {f : String} {n : Nat} {d : Def} {σ' : Env}
+    (h : findCall σ f n = some (.defn d σ')) : d.name = f := by
+  induction σ with
+  | nil => simp [findCall] at h
+  | cons s σ ih =>
+    cases s with
+    | var _ _ => exact ih (by simpa [findCall] using h)
+    | label _ _ => exact ih (by simpa [findCall] using h)
+    | arg p t ρ =>
+      simp only [findCall] at h
+      split at h
+      · cases h
+      · exact ih h
+    | defn d0 ρ =>
+      simp only [findCall] at h
+      split at h
+      · rename_i hc
+        simp only [Option.some.injEq, Callee.defn.injEq] at h
+        obtain ⟨rfl, -⟩ := h
+        exact hc.1
+      · exact ih h
+
+theorem sim (tabf : List CTerm) (hpre : PreOK pe tabf) : ∀ n, SimT pe tabf n := by
   intro n
   induction n with
   | zero =>
     intro L σ loc e t v c _ _ _
     exact ⟨0, fun m' _ => by rw [eval]; exact Pre.of_fuel_nil _⟩
   | succ n ih =>
-    have ihI : SimI tabf n := simI_of_simT ih
+    have ihI : SimI pe tabf n := simI_of_simT ih
     intro L σ loc e t v c hfr hrel hc
     obtain ⟨tr, st0, tr', st1, hcomp, hag⟩ := hc
     cases t with
-    | recurse => simp [inFragment] at hfr
-    | obj kvs => simp [inFragment] at hfr
-    | path f parts => simp [inFragment] at hfr
+    | recurse =>
+      rw [term_recurse] at hcomp
+      simp only [Prod.mk.injEq] at hcomp
+      obtain ⟨rfl, -, -⟩ := hcomp
+      exact ⟨0, fun m' _ => by rw [eval]; simp only [step]; exact Pre.rfl' _⟩
+    | obj kvs =>
+      simp only [inFragment] at hfr
+      rw [term_obj] at hcomp
+      simp only [Prod.mk.injEq] at hcomp
+      obtain ⟨rfl, -, rfl⟩ := hcomp
+      have hT := ihI.tsim (L := L) hrel
+      have hall := entries_sim (v := v) hrel hT hag kvs hfr st0 (sumOr_ext _ _ _) (Nat.le_refl _)
+      obtain ⟨m, hm⟩ := sum_sim (.obj []) .objEmpty (fun _ => rfl) hag _ _ hall _ (Ext.refl _)
+        (compileEntries_extA _ _ _ _).len
+      refine ⟨m, fun m' hm' => ?_⟩
+      rw [eval]
+      exact hm m' hm'
+    | path f parts =>
+      simp only [inFragment, Bool.and_eq_true] at hfr
+      rw [term_path] at hcomp
+      simp only [Prod.mk.injEq] at hcomp
+      obtain ⟨rfl, -, rfl⟩ := hcomp
+      have hT := ihI.tsim (L := L) hrel
+      have e1 : Ext st0 (it (cxMain pe) loc [] f st0).2.2 := it_extA
+      have hIf := compiledI_it (tabf := tabf) hfr.1 (compileParts_extA _ _ _ _) (Nat.le_refl _) hag
+      obtain ⟨m1, h1⟩ := ihI L σ loc e f v _ hfr.1 hrel hIf
+      obtain ⟨m2, h2⟩ := explode_sim (v := v) hT hag parts hfr.2 _ (Ext.refl _) e1.len []
+      refine ⟨max m1 m2, fun m' hm' => ?_⟩
+      rw [eval]; simp only [step]
+      refine pre_bind' (h1 m' (by omega)) (fun y _ => ?_)
+      exact pre_bind' (h2 m' (by omega)) (fun _ _ => Pre.rfl' _)
     | id =>
       rw [term_id] at hcomp
       simp only [Prod.mk.injEq] at hcomp
@@ -128,25 +192,45 @@ theorem sim (tabf : List CTerm) : ∀ n, SimT tabf n := by
       cases fmt with
       | some f => simp [inFragment] at hfr
       | none =>
-        cases parts with
-        | nil => simp [inFragment] at hfr
-        | cons p ps =>
-          cases p with
-          | interp t => simp [inFragment] at hfr
-          | lit s =>
-            cases ps with
-            | cons _ _ => simp [inFragment] at hfr
-            | nil =>
-              rw [term_str1] at hcomp
-              simp only [Prod.mk.injEq] at hcomp
-              obtain ⟨rfl, -, -⟩ := hcomp
-              refine ⟨0, fun m' _ => ?_⟩
-              rw [eval]
-              simp only [List.map_cons, List.map_nil, sumSem, step]
-              exact Pre.rfl' _
+        simp only [inFragment] at hfr
+        rw [term_str] at hcomp
+        simp only [Prod.mk.injEq] at hcomp
+        obtain ⟨rfl, -, rfl⟩ := hcomp
+        have hT := ihI.tsim (L := L) hrel
+        have e1 : Ext st0 (st0.insert .toString).2 := Ext.insert _ _
+        have e2 := compileStrParts_extA (cxMain pe) loc (st0.insert .toString).1 parts (st0.insert .toString).2
+        have e3 := sumOr_ext (.str "") (compileStrParts (cxMain pe) loc (st0.insert .toString).1 parts (st0.insert .toString).2).1
+          (compileStrParts (cxMain pe) loc (st0.insert .toString).1 parts (st0.insert .toString).2).2
+        have hfmt : tabf[(st0.insert .toString).1]? = some .toString := by
+          have hlt : st0.terms.length < (st0.insert .toString).2.terms.length := by simp [St.insert]
+          show tabf[st0.terms.length]? = _
+          rw [hag _ (Nat.le_refl _) (Nat.lt_of_lt_of_le hlt (Nat.le_trans e2.len e3.len)), (Ext.trans e2 e3).get hlt]
+          simp [St.insert]
+        have hall := strparts_sim (v := v) hT
+          (fun (x : StrPart) => match x with
+            | .lit s => fun (_ : Unit) => (OutG.done [strVal s] : Out)
+            | .interp f => fun _ =>
+              match (none : Option String) with
+              | none => let o := eval n L σ f v; OutG.bind o.vals o.stop fun w => .done [intoString w]
+              | some g => eval n L σ (.pipe f none (.call g [])) v)
+          (fun _ => rfl) (fun _ => rfl) hfmt hag parts hfr _ e3 e1.len
+        obtain ⟨m, hm⟩ := sum_sim (strVal "") (.str "") (fun _ => rfl) hag _ _ hall _ (Ext.refl _) (Nat.le_trans e1.len e2.len)
+        refine ⟨m, fun m' hm' => ?_⟩
+        rw [eval]
+        exact hm m' hm'
     | arr t =>
       cases t with
-      | none => simp [inFragment] at hfr
+      | none =>
+        simp only [inFragment] at hfr
+        subst hfr
+        rw [term_arr_none] at hcomp
+        simp only [Prod.mk.injEq] at hcomp
+        obtain ⟨rfl, -, rfl⟩ := hcomp
+        refine ⟨3, fun m' hm' => ?_⟩
+        obtain ⟨k, rfl⟩ : ∃ k, m' = k + 3 := ⟨m' - 3, by omega⟩
+        rw [eval]; simp only [step]
+        rw [itermEmpty_run hpre hrel (Ext.refl _) (Nat.le_refl _) hag]
+        exact Pre.rfl' _
       | some f =>
         simp only [inFragment] at hfr
         rw [term_arr] at hcomp
@@ -173,7 +257,7 @@ theorem sim (tabf : List CTerm) : ∀ n, SimT tabf n := by
       simp only [Prod.mk.injEq] at hcomp
       obtain ⟨rfl, -, rfl⟩ := hcomp
       have hI := compiledI_it (tabf := tabf) hfr (Ext.refl _) (Nat.le_refl _) hag
-      have hrel' : Rel tabf (.label x (L+1) :: σ) (loc.pushLabel x) (.lbl (L+1) :: e) := Rel.l hrel
+      have hrel' : Rel pe tabf (.label x (L+1) :: σ) (loc.pushLabel x) (.lbl (L+1) :: e) := Rel.l hrel
       obtain ⟨m, hm⟩ := ihI (L+1) _ _ _ f v _ hfr hrel' hI
       refine ⟨m, fun m' hm' => ?_⟩
       rw [eval]; simp only [step]
@@ -219,32 +303,52 @@ theorem sim (tabf : List CTerm) : ∀ n, SimT tabf n := by
         have hIr := compiledI_it (tabf := tabf) hfr.2 (Ext.refl _) (it_ext' (tr := []) (st := st0) hfr.1).len hag
         obtain ⟨m1, h1⟩ := ihI L σ loc e l v _ hfr.1 hrel hIl
         obtain ⟨m2, h2⟩ := uniform_fuel (P := fun m' w => Pre (eval n L σ r w)
-            (run cfgF tabf m' L e (it cxMain loc tr r (it cxMain loc [] l st0).2.2).1 w))
+            (run cfgF tabf m' L e (it (cxMain pe) loc tr r (it (cxMain pe) loc [] l st0).2.2).1 w))
           (eval n L σ l v).vals (fun w _ => ihI L σ loc e r w _ hfr.2 hrel hIr)
         refine ⟨max m1 m2, fun m' hm' => ?_⟩
         rw [eval]; simp only [step]
         exact pre_bind' (h1 m' (by omega)) (h2 m' (by omega))
       | some p =>
-        cases p with
-        | arr _ => simp [inFragment] at hfr
-        | obj _ => simp [inFragment] at hfr
-        | var x =>
-          simp only [inFragment, Bool.and_eq_true] at hfr
-          rw [term_pipe_var] at hcomp
-          simp only [Prod.mk.injEq] at hcomp
-          obtain ⟨rfl, -, rfl⟩ := hcomp
-          have hIl := compiledI_it (tabf := tabf) hfr.1 (it_ext' hfr.2) (Nat.le_refl _) hag
-          have hIr := compiledI_it (tabf := tabf) hfr.2 (Ext.refl _) (it_ext' (tr := []) (st := st0) hfr.1).len hag
-          obtain ⟨m1, h1⟩ := ihI L σ loc e l v _ hfr.1 hrel hIl
-          obtain ⟨m2, h2⟩ := uniform_fuel (P := fun m' w => Pre (eval n L (.var x w :: σ) r v)
-              (run cfgF tabf m' L (.val w :: e) (it cxMain (loc.pushBind (.var x)) tr r (it cxMain loc [] l st0).2.2).1 v))
-            (eval n L σ l v).vals (fun w _ => ihI L _ _ _ r v _ hfr.2 (Rel.v hrel) hIr)
-          refine ⟨max m1 m2, fun m' hm' => ?_⟩
-          rw [eval]; simp only [step, bindPat_var, bindPatM_var, OutG.done, bind_singleton]
-          exact pre_bind' (h1 m' (by omega)) (h2 m' (by omega))
+        simp only [inFragment, Bool.and_eq_true] at hfr
+        rw [term_pipe_some] at hcomp
+        simp only [Prod.mk.injEq] at hcomp
+        obtain ⟨rfl, -, rfl⟩ := hcomp
+        have hT := ihI.tsim (L := L) hrel
+        have e1 : Ext st0 (it (cxMain pe) loc [] l st0).2.2 := it_extA
+        have e2 : Ext (it (cxMain pe) loc [] l st0).2.2
+            (it (cxMain pe) (loc.pushVars p.vars) tr r (it (cxMain pe) loc [] l st0).2.2).2.2 := it_extA
+        have e3 := pattern_extA (cxMain pe) loc p (it (cxMain pe) (loc.pushVars p.vars) tr r (it (cxMain pe) loc [] l st0).2.2).2.2
+        have hIl := compiledI_it (tabf := tabf) hfr.1.1 (Ext.trans e2 e3) (Nat.le_refl _) hag
+        have hIr := compiledI_it (tabf := tabf) (tr := tr) hfr.2 e3 e1.len hag
+        obtain ⟨m1, h1⟩ := ihI L σ loc e l v _ hfr.1.1 hrel hIl
+        have hpat := fun w => pat_bind_sim hrel hT.key p hfr.1.2
+          (it (cxMain pe) (loc.pushVars p.vars) tr r (it (cxMain pe) loc [] l st0).2.2).2.2 _ st0.terms.length
+          (Ext.refl _) (Nat.le_trans e1.len e2.len) hag
+          (fun ρ' => eval n L ρ' r v)
+          (fun m' e' => run cfgF tabf m' L e' (it (cxMain pe) (loc.pushVars p.vars) tr r (it (cxMain pe) loc [] l st0).2.2).1 v)
+          (fun ρ' e' hr => ihI L ρ' _ e' r v _ hfr.2 hr hIr) w
+        obtain ⟨m2, h2⟩ := uniform_fuel (eval n L σ l v).vals (fun w _ => hpat w)
+        refine ⟨max m1 m2, fun m' hm' => ?_⟩
+        rw [eval]; simp only [step]
+        exact pre_bind' (h1 m' (by omega)) (h2 m' (by omega))
     | tryCatch f c' =>
       cases c' with
-      | none => simp [inFragment] at hfr
+      | none =>
+        simp only [inFragment, Bool.and_eq_true] at hfr
+        obtain ⟨hpe, hfr⟩ := hfr
+        subst hpe
+        rw [term_try_none] at hcomp
+        simp only [Prod.mk.injEq] at hcomp
+        obtain ⟨rfl, -, rfl⟩ := hcomp
+        have e1 : Ext st0 (it (cxMain true) loc [] f st0).2.2 := it_extA
+        have hIl := compiledI_it (tabf := tabf) hfr (itermEmpty_ext _ _ _) (Nat.le_refl _) hag
+        obtain ⟨m1, h1⟩ := ihI L σ loc e f v _ hfr hrel hIl
+        refine ⟨max m1 3, fun m' hm' => ?_⟩
+        obtain ⟨k, rfl⟩ : ∃ k, m' = k + 3 := ⟨m' - 3, by omega⟩
+        rw [eval]; simp only [step]
+        refine pre_try (h := fun _ => (OutG.done [] : Out)) (h1 _ (by omega)) (fun x _ => ?_)
+        rw [itermEmpty_run hpre hrel (Ext.refl _) e1.len hag]
+        exact Pre.rfl' _
       | some c' =>
         simp only [inFragment, Bool.and_eq_true] at hfr
         rw [term_try] at hcomp
@@ -254,7 +358,7 @@ theorem sim (tabf : List CTerm) : ∀ n, SimT tabf n := by
         have hIr := compiledI_it (tabf := tabf) hfr.2 (Ext.refl _) (it_ext' (tr := []) (st := st0) hfr.1).len hag
         obtain ⟨m1, h1⟩ := ihI L σ loc e f v _ hfr.1 hrel hIl
         have hh : ∃ m2, ∀ m' ≥ m2, ∀ x, (eval n L σ f v).stop = .err x →
-            Pre (eval n L σ c' (errToVal x)) (run cfgF tabf m' L e (it cxMain loc [] c' (it cxMain loc [] f st0).2.2).1 (errToVal x)) := by
+            Pre (eval n L σ c' (errToVal x)) (run cfgF tabf m' L e (it (cxMain pe) loc [] c' (it (cxMain pe) loc [] f st0).2.2).1 (errToVal x)) := by
           cases hst : (eval n L σ f v).stop with
           | err x =>
             obtain ⟨m2, h2⟩ := ihI L σ loc e c' (errToVal x) _ hfr.2 hrel hIr
@@ -268,73 +372,49 @@ theorem sim (tabf : List CTerm) : ∀ n, SimT tabf n := by
         rw [eval]; simp only [step]
         exact pre_try (h := fun x => eval n L σ c' x) (h1 m' (by omega)) (h2 m' (by omega))
     | ite its els =>
-      cases its with
-      | nil => simp [inFragment] at hfr
-      | cons ct rest =>
-        obtain ⟨cnd, thn⟩ := ct
-        cases rest with
-        | cons _ _ => cases els <;> simp [inFragment] at hfr
-        | nil =>
-          cases els with
-          | none =>
-            simp only [inFragment, Bool.and_eq_true] at hfr
-            rw [term_ite1_none] at hcomp
-            simp only [Prod.mk.injEq] at hcomp
-            obtain ⟨rfl, -, rfl⟩ := hcomp
-            have hIc := compiledI_it (tabf := tabf) hfr.1
-              (Ext.trans (it_ext' (tr := tr) hfr.2) (Ext.insert _ _)) (Nat.le_refl _) hag
-            have hIt := compiledI_it (tabf := tabf) (tr := tr) hfr.2 (Ext.insert _ .id)
-              (it_ext' (tr := []) (st := st0) hfr.1).len hag
-            -- the inserted `else` term is `.`
-            have hge : tabf[(it cxMain loc tr thn (it cxMain loc [] cnd st0).2.2).2.2.terms.length]? = some CTerm.id := by
-              rw [hag _ (Nat.le_trans (it_ext' (tr := []) (st := st0) hfr.1).len (it_ext' (tr := tr) hfr.2).len)
-                (by simp [St.insert])]
-              simp [St.insert]
-            obtain ⟨m1, h1⟩ := ihI L σ loc e cnd v _ hfr.1 hrel hIc
-            obtain ⟨m2, h2⟩ := ihI L σ loc e thn v _ hfr.2 hrel hIt
-            refine ⟨max m1 m2 + 1, fun m' hm' => ?_⟩
-            obtain ⟨k, rfl⟩ : ∃ k, m' = k + 1 := ⟨m' - 1, by omega⟩
-            rw [eval]; simp only [step, iteSem, St.insert]
-            refine pre_bind' (h1 _ (by omega)) (fun b _ => ?_)
-            by_cases hb : truthy b = true
-            · simp only [hb, if_true]; exact h2 _ (by omega)
-            · simp only [hb]
-              rw [run_succ hge]; simp only [step]; exact Pre.rfl' _
-          | some els =>
-            simp only [inFragment, Bool.and_eq_true] at hfr
-            rw [term_ite1_some] at hcomp
-            simp only [Prod.mk.injEq] at hcomp
-            obtain ⟨rfl, -, rfl⟩ := hcomp
-            have hext3 := term_ext hfr.2 cxMain loc tr (it cxMain loc tr thn (it cxMain loc [] cnd st0).2.2).2.2
-            have hIc := compiledI_it (tabf := tabf) hfr.1.1
-              (Ext.trans (it_ext' (tr := tr) hfr.1.2) (Ext.trans hext3 (Ext.insert _ _))) (Nat.le_refl _) hag
-            have hIt := compiledI_it (tabf := tabf) (tr := tr) hfr.1.2 (Ext.trans hext3 (Ext.insert _ _))
-              (it_ext' (tr := []) (st := st0) hfr.1.1).len hag
-            have hle2 : st0.terms.length ≤ (it cxMain loc tr thn (it cxMain loc [] cnd st0).2.2).2.2.terms.length :=
-              Nat.le_trans (it_ext' (tr := []) (st := st0) hfr.1.1).len (it_ext' (tr := tr) hfr.1.2).len
-            have hIe : CompiledI tabf loc els
-                (term cxMain loc tr els (it cxMain loc tr thn (it cxMain loc [] cnd st0).2.2).2.2).2.2.terms.length := by
-              refine ⟨(term cxMain loc tr els (it cxMain loc tr thn (it cxMain loc [] cnd st0).2.2).2.2).1, ?_,
-                tr, _, _, _, rfl, ?_⟩
-              · rw [hag _ (Nat.le_trans hle2 hext3.len) (by simp [St.insert])]
-                simp [St.insert]
-              · exact AgreeFrom.of_ext (AgreeFrom.mono hag hle2) (Ext.insert _ _)
-            obtain ⟨m1, h1⟩ := ihI L σ loc e cnd v _ hfr.1.1 hrel hIc
-            obtain ⟨m2, h2⟩ := ihI L σ loc e thn v _ hfr.1.2 hrel hIt
-            obtain ⟨m3, h3⟩ := ihI L σ loc e els v _ hfr.2 hrel hIe
-            refine ⟨max m1 (max m2 m3), fun m' hm' => ?_⟩
-            rw [eval]; simp only [step, iteSem, St.insert]
-            refine pre_bind' (h1 _ (by omega)) (fun b _ => ?_)
-            by_cases hb : truthy b = true
-            · simp only [hb, if_true]; exact h2 _ (by omega)
-            · simp only [hb]; exact h3 _ (by omega)
+      have hT := ihI.tsim (L := L) hrel
+      cases els with
+      | none =>
+        simp only [inFragment] at hfr
+        rw [term_ite_none] at hcomp
+        have hst1 : st1 = (iteBuild (compileIts (cxMain pe) loc tr its st0).1 (.id, [], (compileIts (cxMain pe) loc tr its st0).2)).2.2 := by
+          rw [hcomp]
+        have hc1 : c = (iteBuild (compileIts (cxMain pe) loc tr its st0).1 (.id, [], (compileIts (cxMain pe) loc tr its st0).2)).1 := by
+          rw [hcomp]
+        subst hst1 hc1
+        obtain ⟨m, hm⟩ := ite_sim (v := v) (tr := tr) hT hag none (.id, [], (compileIts (cxMain pe) loc tr its st0).2)
+          ⟨0, fun m' _ => by simp only [iteSem, step]; exact Pre.rfl' _⟩ its hfr st0 (Ext.refl _) (Ext.refl _) (Nat.le_refl _)
+        refine ⟨m, fun m' hm' => ?_⟩
+        rw [eval]
+        exact hm m' hm'
+      | some els =>
+        simp only [inFragment, Bool.and_eq_true] at hfr
+        rw [term_ite_some] at hcomp
+        have hst1 : st1 = (iteBuild (compileIts (cxMain pe) loc tr its st0).1
+            (term (cxMain pe) loc tr els (compileIts (cxMain pe) loc tr its st0).2)).2.2 := by rw [hcomp]
+        have hc1 : c = (iteBuild (compileIts (cxMain pe) loc tr its st0).1
+            (term (cxMain pe) loc tr els (compileIts (cxMain pe) loc tr its st0).2)).1 := by rw [hcomp]
+        subst hst1 hc1
+        have e1 := compileIts_extA (cxMain pe) loc tr its st0
+        have e2 := term_ext els (cxMain pe) loc tr (compileIts (cxMain pe) loc tr its st0).2
+        have e3 := iteBuild_ext (compileIts (cxMain pe) loc tr its st0).1
+          (term (cxMain pe) loc tr els (compileIts (cxMain pe) loc tr its st0).2)
+        -- the `else` branch is compiled by `term` (not inserted yet): the T-form hypothesis applies
+        obtain ⟨mb, hb⟩ := ih L σ loc e els v (term (cxMain pe) loc tr els (compileIts (cxMain pe) loc tr its st0).2).1 hfr.2 hrel
+          ⟨tr, _, _, _, rfl, AgreeFrom.of_ext (AgreeFrom.mono hag e1.len) e3⟩
+        obtain ⟨m, hm⟩ := ite_sim (v := v) (tr := tr) hT hag (some els)
+          (term (cxMain pe) loc tr els (compileIts (cxMain pe) loc tr its st0).2)
+          ⟨mb, fun m' hm' => by simp only [iteSem]; exact hb m' hm'⟩ its hfr.1 st0 e2 (Ext.refl _) (Nat.le_refl _)
+        refine ⟨max m 1, fun m' hm' => ?_⟩
+        rw [eval]
+        exact hm m' (by omega)
     | defs ds f =>
       simp only [inFragment, Bool.and_eq_true] at hfr
       rw [term_defs] at hcomp
-      have hst1 : st1 = (term cxMain (compileDefs cxMain loc tr ds st0).1 tr f (compileDefs cxMain loc tr ds st0).2).2.2 := by
+      have hst1 : st1 = (term (cxMain pe) (compileDefs (cxMain pe) loc tr ds st0).1 tr f (compileDefs (cxMain pe) loc tr ds st0).2).2.2 := by
         rw [hcomp]
       have hrel' := defs_rel (tabf := tabf) (tr := tr) ds σ loc e st0 st1 st0.terms.length hfr.1 hrel
-        (by rw [hst1]; exact term_ext hfr.2 _ _ _ _) (Nat.le_refl _) hag
+        (by rw [hst1]; exact term_ext _ _ _ _ _) (Nat.le_refl _) hag
       obtain ⟨m, hm⟩ := ih L _ _ e f v c hfr.2 hrel'
         ⟨tr, _, tr', st1, hcomp, AgreeFrom.mono hag (compileDefs_ext ds hfr.1 _ _).len⟩
       refine ⟨m, fun m' hm' => ?_⟩
@@ -390,105 +470,111 @@ theorem sim (tabf : List CTerm) : ∀ n, SimT tabf n := by
           | updateMath _ => simp [Bop.inFragment] at hfr
           | updateAlt => simp [Bop.inFragment] at hfr
     | fold name xs pat args =>
-      cases pat with
-      | arr _ => simp [inFragment] at hfr
-      | obj _ => simp [inFragment] at hfr
-      | var x =>
-        simp only [inFragment, Bool.and_eq_true] at hfr
+      simp only [inFragment, Bool.and_eq_true] at hfr
+      cases args with
+      | nil =>
+        rw [term_fold_short0] at hcomp
+        simp only [Prod.mk.injEq] at hcomp
+        obtain ⟨rfl, -, -⟩ := hcomp
+        refine ⟨0, fun m' _ => ?_⟩
+        rw [eval]
+        · simp only [step]; exact Pre.rfl' _
+        all_goals (intros; rename_i h; cases h)
+      | cons init args =>
         cases args with
         | nil =>
-          rw [term_fold_short0] at hcomp
+          rw [term_fold_short1] at hcomp
           simp only [Prod.mk.injEq] at hcomp
           obtain ⟨rfl, -, -⟩ := hcomp
           refine ⟨0, fun m' _ => ?_⟩
           rw [eval]
           · simp only [step]; exact Pre.rfl' _
           all_goals (intros; rename_i h; cases h)
-        | cons init args =>
-          cases args with
+        | cons update rest =>
+          simp only [inFragmentList, Bool.and_eq_true] at hfr
+          rw [term_fold] at hcomp
+          have e1 : Ext st0 (it (cxMain pe) loc [] xs st0).2.2 := it_extA
+          have e2 := pattern_extA (cxMain pe) loc pat (it (cxMain pe) loc [] xs st0).2.2
+          have e3 : Ext (pattern (cxMain pe) loc pat (it (cxMain pe) loc [] xs st0).2.2).2
+              (it (cxMain pe) loc [] init (pattern (cxMain pe) loc pat (it (cxMain pe) loc [] xs st0).2.2).2).2.2 := it_extA
+          have e4 : Ext (it (cxMain pe) loc [] init (pattern (cxMain pe) loc pat (it (cxMain pe) loc [] xs st0).2.2).2).2.2
+              (it (cxMain pe) (loc.pushVars pat.vars) [] update
+                (it (cxMain pe) loc [] init (pattern (cxMain pe) loc pat (it (cxMain pe) loc [] xs st0).2.2).2).2.2).2.2 := it_extA
+          cases rest with
           | nil =>
-            rw [term_fold_short1] at hcomp
-            simp only [Prod.mk.injEq] at hcomp
-            obtain ⟨rfl, -, -⟩ := hcomp
-            refine ⟨0, fun m' _ => ?_⟩
-            rw [eval]
-            · simp only [step]; exact Pre.rfl' _
-            all_goals (intros; rename_i h; cases h)
-          | cons update rest =>
-            simp only [inFragmentList, Bool.and_eq_true] at hfr
-            rw [term_fold_var] at hcomp
-            have e1 := it_ext' (loc := loc) (tr := []) (st := st0) hfr.1
-            have e2 := it_ext' (loc := loc) (tr := []) (st := (it cxMain loc [] xs st0).2.2) hfr.2.1
-            have e3 := it_ext' (loc := loc.pushBind (.var x)) (tr := [])
-              (st := (it cxMain loc [] init (it cxMain loc [] xs st0).2.2).2.2) hfr.2.2.1
-            cases rest with
-            | nil =>
-              simp only at hcomp
-              by_cases hr : name = "reduce"
-              · simp only [hr, if_true, Prod.mk.injEq] at hcomp
+            simp only at hcomp
+            by_cases hr : name = "reduce"
+            · simp only [hr, if_true, Prod.mk.injEq] at hcomp
+              obtain ⟨rfl, -, rfl⟩ := hcomp
+              have hIx := compiledI_it (tabf := tabf) hfr.1.1 (Ext.trans e2 (Ext.trans e3 e4)) (Nat.le_refl _) hag
+              have hIi := compiledI_it (tabf := tabf) hfr.2.1 e4 (Nat.le_trans e1.len e2.len) hag
+              have hIu := compiledI_it (tabf := tabf) hfr.2.2.1 (Ext.refl _) (Nat.le_trans e1.len (Nat.le_trans e2.len e3.len)) hag
+              obtain ⟨m, hm⟩ := fold_core ihI L σ loc e v hrel pat xs init update _ _ _ hfr.1.1 hfr.1.2 hfr.2.1 hfr.2.2.1 hIx hIi hIu
+                _ _ st0.terms.length (Ext.trans e3 e4) e1.len hag
+                (fun _ y => .done [y]) (fun _ _ y => .done [y]) true (fun _ _ _ acc => ⟨0, fun _ _ => Pre.rfl' _⟩)
+              refine ⟨m, fun m' hm' => ?_⟩
+              rw [eval]; simp only [hr, if_true, step]
+              exact hm m' hm'
+            · by_cases hfe : name = "foreach"
+              · simp only [hr, hfe, if_false, if_true, Prod.mk.injEq] at hcomp
                 obtain ⟨rfl, -, rfl⟩ := hcomp
-                have hIx := compiledI_it (tabf := tabf) hfr.1 (Ext.trans e2 e3) (Nat.le_refl _) hag
-                have hIi := compiledI_it (tabf := tabf) hfr.2.1 e3 e1.len hag
-                have hIu := compiledI_it (tabf := tabf) hfr.2.2.1 (Ext.refl _) (Nat.le_trans e1.len e2.len) hag
-                obtain ⟨m, hm⟩ := fold_core ihI L σ loc e v hrel x xs init update _ _ _ hfr.1 hfr.2.1 hfr.2.2.1 hIx hIi hIu
-                  (fun _ y => .done [y]) (fun _ _ y => .done [y]) true (fun w acc => ⟨0, fun _ _ => Pre.rfl' _⟩)
+                have hIx := compiledI_it (tabf := tabf) hfr.1.1 (Ext.trans e2 (Ext.trans e3 e4)) (Nat.le_refl _) hag
+                have hIi := compiledI_it (tabf := tabf) hfr.2.1 e4 (Nat.le_trans e1.len e2.len) hag
+                have hIu := compiledI_it (tabf := tabf) hfr.2.2.1 (Ext.refl _) (Nat.le_trans e1.len (Nat.le_trans e2.len e3.len)) hag
+                obtain ⟨m, hm⟩ := fold_core ihI L σ loc e v hrel pat xs init update _ _ _ hfr.1.1 hfr.1.2 hfr.2.1 hfr.2.2.1 hIx hIi hIu
+                  _ _ st0.terms.length (Ext.trans e3 e4) e1.len hag
+                  (fun _ y => .done [y]) (fun _ _ y => .done [y]) false (fun _ _ _ acc => ⟨0, fun _ _ => Pre.rfl' _⟩)
                 refine ⟨m, fun m' hm' => ?_⟩
-                rw [eval]; simp only [hr, if_true, step]
+                rw [eval]; simp only [hr, hfe, if_false, if_true, step]
                 exact hm m' hm'
-              · by_cases hfe : name = "foreach"
-                · simp only [hr, hfe, if_false, if_true, Prod.mk.injEq] at hcomp
-                  obtain ⟨rfl, -, rfl⟩ := hcomp
-                  have hIx := compiledI_it (tabf := tabf) hfr.1 (Ext.trans e2 e3) (Nat.le_refl _) hag
-                  have hIi := compiledI_it (tabf := tabf) hfr.2.1 e3 e1.len hag
-                  have hIu := compiledI_it (tabf := tabf) hfr.2.2.1 (Ext.refl _) (Nat.le_trans e1.len e2.len) hag
-                  obtain ⟨m, hm⟩ := fold_core ihI L σ loc e v hrel x xs init update _ _ _ hfr.1 hfr.2.1 hfr.2.2.1 hIx hIi hIu
-                    (fun _ y => .done [y]) (fun _ _ y => .done [y]) false (fun w acc => ⟨0, fun _ _ => Pre.rfl' _⟩)
-                  refine ⟨m, fun m' hm' => ?_⟩
-                  rw [eval]; simp only [hr, hfe, if_false, if_true, step]
-                  exact hm m' hm'
-                · simp only [hr, hfe, if_false, Prod.mk.injEq] at hcomp
-                  obtain ⟨rfl, -, -⟩ := hcomp
-                  exact ⟨0, fun m' _ => by rw [eval]; simp only [hr, hfe, if_false, step]; exact Pre.rfl' _⟩
-            | cons proj rest =>
-              cases rest with
-              | cons _ _ =>
-                simp only [Prod.mk.injEq] at hcomp
+              · simp only [hr, hfe, if_false, Prod.mk.injEq] at hcomp
                 obtain ⟨rfl, -, -⟩ := hcomp
-                refine ⟨0, fun m' _ => ?_⟩
-                rw [eval]
-                · simp only [step]; exact Pre.rfl' _
-                all_goals (intros; rename_i h; cases h)
-              | nil =>
-                simp only [inFragmentList, Bool.and_eq_true] at hfr
-                simp only at hcomp
-                by_cases hfe : name = "foreach"
-                · simp only [hfe, if_true, Prod.mk.injEq] at hcomp
-                  obtain ⟨rfl, -, rfl⟩ := hcomp
-                  have e4 := it_ext' (loc := loc.pushBind (.var x)) (tr := tr)
-                    (st := (it cxMain (loc.pushBind (.var x)) [] update (it cxMain loc [] init (it cxMain loc [] xs st0).2.2).2.2).2.2) hfr.2.2.2.1
-                  have hIx := compiledI_it (tabf := tabf) hfr.1 (Ext.trans e2 (Ext.trans e3 e4)) (Nat.le_refl _) hag
-                  have hIi := compiledI_it (tabf := tabf) hfr.2.1 (Ext.trans e3 e4) e1.len hag
-                  have hIu := compiledI_it (tabf := tabf) hfr.2.2.1 e4 (Nat.le_trans e1.len e2.len) hag
-                  have hIp := compiledI_it (tabf := tabf) (tr := tr) hfr.2.2.2.1 (Ext.refl _)
-                    (Nat.le_trans e1.len (Nat.le_trans e2.len e3.len)) hag
-                  obtain ⟨m, hm⟩ := fold_core ihI L σ loc e v hrel x xs init update _ _ _ hfr.1 hfr.2.1 hfr.2.2.1 hIx hIi hIu
-                    (fun ρx y => eval n L ρx proj y)
-                    (fun m' ex y => run cfgF tabf m' L ex (it cxMain (loc.pushBind (.var x)) tr proj
-                      (it cxMain (loc.pushBind (.var x)) [] update (it cxMain loc [] init (it cxMain loc [] xs st0).2.2).2.2).2.2).1 y)
-                    false
-                    (fun w acc => ihI L _ _ _ proj acc _ hfr.2.2.2.1 (Rel.v hrel) hIp)
-                  refine ⟨m, fun m' hm' => ?_⟩
-                  rw [eval]; simp only [hfe, if_true, step]
-                  exact hm m' hm'
-                · simp only [hfe, if_false, Prod.mk.injEq] at hcomp
-                  obtain ⟨rfl, -, -⟩ := hcomp
-                  exact ⟨0, fun m' _ => by rw [eval]; simp only [hfe, if_false, step]; exact Pre.rfl' _⟩
+                exact ⟨0, fun m' _ => by rw [eval]; simp only [hr, hfe, if_false, step]; exact Pre.rfl' _⟩
+          | cons proj rest =>
+            cases rest with
+            | cons _ _ =>
+              simp only [Prod.mk.injEq] at hcomp
+              obtain ⟨rfl, -, -⟩ := hcomp
+              refine ⟨0, fun m' _ => ?_⟩
+              rw [eval]
+              · simp only [step]; exact Pre.rfl' _
+              all_goals (intros; rename_i h; cases h)
+            | nil =>
+              simp only [inFragmentList, Bool.and_eq_true] at hfr
+              simp only at hcomp
+              by_cases hfe : name = "foreach"
+              · simp only [hfe, if_true, Prod.mk.injEq] at hcomp
+                obtain ⟨rfl, -, rfl⟩ := hcomp
+                have e5 : Ext (it (cxMain pe) (loc.pushVars pat.vars) [] update
+                    (it (cxMain pe) loc [] init (pattern (cxMain pe) loc pat (it (cxMain pe) loc [] xs st0).2.2).2).2.2).2.2
+                    (it (cxMain pe) (loc.pushVars pat.vars) tr proj (it (cxMain pe) (loc.pushVars pat.vars) [] update
+                      (it (cxMain pe) loc [] init (pattern (cxMain pe) loc pat (it (cxMain pe) loc [] xs st0).2.2).2).2.2).2.2).2.2 := it_extA
+                have hIx := compiledI_it (tabf := tabf) hfr.1.1 (Ext.trans e2 (Ext.trans e3 (Ext.trans e4 e5))) (Nat.le_refl _) hag
+                have hIi := compiledI_it (tabf := tabf) hfr.2.1 (Ext.trans e4 e5) (Nat.le_trans e1.len e2.len) hag
+                have hIu := compiledI_it (tabf := tabf) hfr.2.2.1 e5 (Nat.le_trans e1.len (Nat.le_trans e2.len e3.len)) hag
+                have hIp := compiledI_it (tabf := tabf) (tr := tr) hfr.2.2.2.1 (Ext.refl _)
+                  (Nat.le_trans e1.len (Nat.le_trans e2.len (Nat.le_trans e3.len e4.len))) hag
+                obtain ⟨m, hm⟩ := fold_core ihI L σ loc e v hrel pat xs init update _ _ _ hfr.1.1 hfr.1.2 hfr.2.1 hfr.2.2.1 hIx hIi hIu
+                  _ _ st0.terms.length (Ext.trans e3 (Ext.trans e4 e5)) e1.len hag
+                  (fun ρx y => eval n L ρx proj y)
+                  (fun m' ex y => run cfgF tabf m' L ex (it (cxMain pe) (loc.pushVars pat.vars) tr proj
+                    (it (cxMain pe) (loc.pushVars pat.vars) [] update
+                      (it (cxMain pe) loc [] init (pattern (cxMain pe) loc pat (it (cxMain pe) loc [] xs st0).2.2).2).2.2).2.2).1 y)
+                  false
+                  (fun ρx ex hrx acc => ihI L ρx _ ex proj acc _ hfr.2.2.2.1 hrx hIp)
+                refine ⟨m, fun m' hm' => ?_⟩
+                rw [eval]; simp only [hfe, if_true, step]
+                exact hm m' hm'
+              · simp only [hfe, if_false, Prod.mk.injEq] at hcomp
+                obtain ⟨rfl, -, -⟩ := hcomp
+                exact ⟨0, fun m' _ => by rw [eval]; simp only [hfe, if_false, step]; exact Pre.rfl' _⟩
     | call name args =>
       simp only [inFragment, Bool.and_eq_true] at hfr
       rw [term_call] at hcomp
-      have hnot : ¬ (isQualified name = true) := by simpa using hfr.1
+      have hnot : ¬ (isQualified name = true) := by simpa using hfr.1.1
+      have hne : name ≠ emptyName := by simpa using hfr.1.2
       rw [if_neg hnot] at hcomp
-      have hst1 : st1 = (callC cxMain loc name (itermList cxMain loc args st0).1 tr (itermList cxMain loc args st0).2).2.2 := by
+      have hst1 : st1 = (callC (cxMain pe) loc name (itermList (cxMain pe) loc args st0).1 tr (itermList (cxMain pe) loc args st0).2).2.2 := by
         rw [hcomp]
       have hall := itermList_spec (tabf := tabf) (loc := loc) args st0 st1 st0.terms.length hfr.2
         (by rw [hst1]; exact callC_ext _ _ _ _ _ _) (Nat.le_refl _) hag
@@ -499,9 +585,9 @@ theorem sim (tabf : List CTerm) : ∀ n, SimT tabf n := by
       cases hf : findCall σ name args.length with
       | none =>
         rw [hf] at hlk; simp only at hlk ⊢
-        have hcall : loc.call name (itermList cxMain loc args st0).1 tr = none := by
+        have hcall : loc.call name (itermList (cxMain pe) loc args st0).1 tr = none := by
           simp only [Locals.call, hlen, hlk]
-        rw [callC_none _ hcall, hlen] at hcomp
+        rw [callC_none _ hcall hne, hlen] at hcomp
         by_cases hn : name = "error_empty" ∧ args.length = 0
         · rw [if_pos hn] at hcomp
           simp only [Prod.mk.injEq] at hcomp
@@ -520,7 +606,7 @@ theorem sim (tabf : List CTerm) : ∀ n, SimT tabf n := by
         cases cl with
         | arg t σ' =>
           obtain ⟨pos, id, loc', e', h1, h2, h3, h4, h5, h6⟩ := hlk
-          have hcall : loc.call name (itermList cxMain loc args st0).1 tr = some (.var (loc.total - pos), []) := by
+          have hcall : loc.call name (itermList (cxMain pe) loc args st0).1 tr = some (.var (loc.total - pos), []) := by
             simp only [Locals.call, hlen, h1]
           simp only [callC, hcall, Prod.mk.injEq] at hcomp
           obtain ⟨rfl, -, -⟩ := hcomp
@@ -530,18 +616,19 @@ theorem sim (tabf : List CTerm) : ∀ n, SimT tabf n := by
           exact hm m' hm'
         | defn d σ' =>
           obtain ⟨fe, vars, id, loc', h1, h2, h3, h4, h5, h6, h7⟩ := hlk
-          obtain ⟨ct, tr'', hcall⟩ := call_defn (tr := tr) (ids := (itermList cxMain loc args st0).1) (by rw [hlen]; exact h1) h2
+          obtain ⟨ct, tr'', hcall⟩ := call_defn (tr := tr) (ids := (itermList (cxMain pe) loc args st0).1) (by rw [hlen]; exact h1) h2
           simp only [callC, hcall, Prod.mk.injEq] at hcomp
           obtain ⟨rfl, -, -⟩ := hcomp
           obtain ⟨m, hm⟩ := args_sim (tabf := tabf) n L σ loc e v hrel loc' (e.drop (loc.total - vars))
             (fun ρb => eval n L (.defn d σ' :: ρb) d.body v) (fun m' eb => run cfgF tabf m' L eb id v)
             (fun t id hfr hI => ihI L σ loc e t v id hfr hrel hI)
-            d.params args (itermList cxMain loc args st0).1 σ' loc' (e.drop (loc.total - vars))
-            hall (by rw [h7]; rfl) h5 (Nat.le_refl _) (by simp)
+            d.params args (itermList (cxMain pe) loc args st0).1 σ' loc' (e.drop (loc.total - vars))
+            h6.2.2 hall (by rw [h7]; rfl) h5 (Nat.le_refl _) (by simp)
             (fun ρb eb hr1 hr2 hr3 => by
-              have hpar : Rel tabf (.defn d σ' :: ρb) (loc'.pushParent d.name (sigOf d.params) id) eb :=
-                Rel.par hr1 (by show Rel tabf σ' loc' (List.drop ((pushParams loc' (sigOf d.params)).total - loc'.total) eb); rw [hr3]; exact h5) hr2 h6
-              exact ihI L _ _ eb d.body v id h6.2 hpar h6.1)
+              have hpar : Rel pe tabf (.defn d σ' :: ρb) (loc'.pushParent d.name (sigOf d.params) id) eb :=
+                Rel.par hr1 (by show Rel pe tabf σ' loc' (List.drop ((pushParams loc' (sigOf d.params)).total - loc'.total) eb); rw [hr3]; exact h5) hr2 h6
+                  (by rw [findCall_defn_name hf]; exact hne)
+              exact ihI L _ _ eb d.body v id h6.2.1 hpar h6.1)
           refine ⟨m, fun m' hm' => ?_⟩
           simp only [step]
           exact hm m' hm'
